@@ -229,6 +229,8 @@ class SynthDesc():
                 aux_ctrl = None
                 for ctrl in self.controls:
                     if ctrl.name == '?':
+                        if aux_ctrl is None:
+                            continue  # Controls before the first name.
                         default_value = utl.as_list(aux_ctrl.default_value)
                         default_value.append(ctrl.default_value)
                         aux_ctrl.default_value = default_value
